@@ -35,6 +35,8 @@ CMP = {ast.Lt: ast.LtE, ast.LtE: ast.Lt, ast.Gt: ast.GtE, ast.GtE: ast.Gt, ast.E
        ast.Is: ast.IsNot, ast.IsNot: ast.Is, ast.In: ast.NotIn, ast.NotIn: ast.In}
 BIN = {ast.Add: ast.Sub, ast.Sub: ast.Add, ast.Mult: ast.Add, ast.Div: ast.Mult, ast.FloorDiv: ast.Div}
 NAMES = {"max": "min", "min": "max", "floor": "ceil", "ceil": "floor", "any": "all", "all": "any"}
+ATTRS = {"start_time": "end_time", "end_time": "start_time", "onset": "offset", "offset": "onset", "low_freq": "high_freq", "high_freq": "low_freq",
+         "source": "target", "target": "source", "annotations": "predictions", "predictions": "annotations"}
 
 
 def functions_of(tree, names):
@@ -74,6 +76,18 @@ def enumerate_sites(tree, fn_names):
             sites.append((i, "name", f"L{ln}: {n.id} -> {NAMES[n.id]}"))
         elif isinstance(n, ast.If) and not n.orelse:
             sites.append((i, "if-true", f"L{ln}: if {ast.unparse(n.test)[:50]}  [condition -> False (branch dropped)]"))
+        elif isinstance(n, ast.Slice) and (n.upper is not None or n.lower is not None):
+            if n.upper is not None:
+                sites.append((i, "slice-upper", f"L{getattr(n.upper, 'lineno', ln)}: slice upper bound {ast.unparse(n.upper)[:30]} -> -1"))
+            if n.lower is not None:
+                sites.append((i, "slice-lower", f"L{getattr(n.lower, 'lineno', ln)}: slice lower bound {ast.unparse(n.lower)[:30]} -> +1"))
+        elif isinstance(n, ast.Call) and len(n.args) == 2 and not n.keywords and not any(isinstance(a, ast.Starred) for a in n.args) \
+                and ast.unparse(n.args[0]) != ast.unparse(n.args[1]):
+            sites.append((i, "argswap", f"L{ln}: {ast.unparse(n)[:60]}  [arguments swapped]"))
+        elif isinstance(n, ast.Call) and isinstance(n.func, ast.Name) and n.func.id in ("sorted", "reversed", "abs", "float", "int") and len(n.args) >= 1:
+            sites.append((i, "unwrap", f"L{ln}: {ast.unparse(n)[:60]}  [{n.func.id}(x) -> x]"))
+        elif isinstance(n, ast.Attribute) and isinstance(n.ctx, ast.Load) and n.attr in ATTRS:
+            sites.append((i, "attr", f"L{ln}: .{n.attr} -> .{ATTRS[n.attr]}"))
         elif isinstance(n, ast.Continue):
             sites.append((i, "continue", f"L{ln}: continue -> pass"))
         elif isinstance(n, ast.Break):
@@ -108,6 +122,19 @@ def apply(tree, idx, kind):
             n.id = NAMES[n.id]
         elif kind == "if-true":
             n.test = ast.Constant(value=False)
+        elif kind == "slice-upper":
+            n.upper = ast.BinOp(left=n.upper, op=ast.Sub(), right=ast.Constant(value=1))
+        elif kind == "slice-lower":
+            n.lower = ast.BinOp(left=n.lower, op=ast.Add(), right=ast.Constant(value=1))
+        elif kind == "argswap":
+            n.args = [n.args[1], n.args[0]]
+        elif kind == "unwrap":
+            new = n.args[0]
+            n.__class__ = new.__class__
+            n.__dict__.clear()
+            n.__dict__.update(new.__dict__)
+        elif kind == "attr":
+            n.attr = ATTRS[n.attr]
         elif kind in ("continue", "break"):
             n.__class__ = ast.Pass
         break
@@ -170,6 +197,9 @@ def main():
         tree = ast.parse(f.read_text())
         for idx, kind, desc in enumerate_sites(tree, fns):
             cands.append((rel, idx, kind, desc))
+    only = os.environ.get("MUT_KINDS")
+    if only:
+        cands = [c for c in cands if c[2] in only.split(",")]
     rng.shuffle(cands)
     cands = cands[:nmax]
     results = []
@@ -200,7 +230,7 @@ def main():
     sh(f"git -C {REPO} worktree remove --force {wt}")
     outd = VERIF / "build" / "mutation"
     outd.mkdir(parents=True, exist_ok=True)
-    (outd / f"{pid}.json").write_text(json.dumps(results, indent=1))
+    (outd / f"{pid}{os.environ.get('MUT_TAG', '')}.json").write_text(json.dumps(results, indent=1))
     surv = [r for r in results if r["suite"] == "pass"]
     print(f"{pid}: {len(results)} mutants, {len(surv)} pass the suite, {sum(r.get('check') == 'VIOLATION' for r in surv)} caught by the check, "
           f"{sum(r.get('check') == 'ok' for r in surv)} survive both")
